@@ -23,6 +23,32 @@ def app(prop, theorems, explanation, assumptions, facts=None):
 
 
 PROPS = {
+    "C05": {
+        "module": "Shutter.Properties.C05",
+        "theorems": ["C05_sites_pinned", "C05_all_classified", "C05_total_guardedIndex", "C05_total_orderLoop",
+                     "C05_total_validateParallel", "C05_total_receiveParallel", "C05_total_fixedIndex", "C05_total_firstOrNone",
+                     "C05_total_receiveExtra"],
+        "driver": {"pkg": "./cmd/crashcheck"},
+        "facts": ["sites"],
+        "trusted_base": [KERNEL,
+                         "factx (go/ast): the list of index, slice and unchecked type-assertion expressions in the 14 gossip-processing "
+                         "files, regenerated on every run and pinned by C05_sites_pinned; the assignment of a guard to each site is my "
+                         "reading of the code around it",
+                         "noderig: real handler stacks of all flavours over pgfake + kdb with panics recovered per stage; the search over "
+                         "byte strings is testing-grade and is the only evidence for 'never hangs' and 'bounded allocation'",
+                         "not modelled: panics inside third-party decoders (protobuf, blst, fastssz, go-ethereum crypto), the Go runtime, "
+                         "goroutine scheduling; database errors"],
+        "explanation": "PARTIAL. Theorems (Lean): the index / slice / type-assertion sites of the gossip-processing code are exactly "
+                       "the 57 listed ones (regenerated from the source on every run), each carries one of nine guards, and for each "
+                       "guard the partial operation written as in the code never yields a panic for any input (lists of any length, any "
+                       "index, any oneof variant incl. nil payloads), including the two guards that rely on the receive path running the "
+                       "handler only after the validator accepted. The differential run delivers valid envelopes of every message type "
+                       "and flavour extra, every single-field structure-aware mutation of them, wrong-type envelopes and raw byte "
+                       "mutations to all seven node flavours on all their topics (two database states each) and fails on a panic, a "
+                       "delivery above 2 s, or allocation above 64 MiB + 64 B per message byte.",
+        "assumptions": ["hang and allocation bounds are searched, not proved",
+                        "the handler runs only on messages its validator accepted (libp2p-pubsub's contract, reproduced by the rig)"],
+    },
     "C04": {
         "module": "Shutter.Properties.C04",
         "theorems": ["C04_shares_iff", "C04_keys_iff", "C04_no_effect", "C04_nondecreasing_pairwise", "C04_sql_pinned"],
